@@ -20,6 +20,7 @@ package didnuts
 
 import (
 	"crypto/ecdsa"
+	"encoding/base64"
 	"encoding/json"
 	"errors"
 	"fmt"
@@ -86,8 +87,13 @@ func (v verificationMethodValidator) verifyThumbprint(method *did.VerificationMe
 	if err = checkPublicKey(keyAsJWK); err != nil {
 		return fmt.Errorf("invalid JWK: %w", err)
 	}
-	_ = jwk.AssignKeyID(keyAsJWK)
-	if keyAsJWK.KeyID() != method.ID.Fragment {
+	// The fragment must be the thumbprint of the key itself. A "kid" member inside the publicKeyJwk says nothing
+	// about the key (jwk.AssignKeyID keeps an existing kid), so the thumbprint is calculated here.
+	thumbprint, err := keyAsJWK.Thumbprint(thumbprintAlg)
+	if err != nil {
+		return fmt.Errorf("unable to generate JWK thumbprint: %w", err)
+	}
+	if base64.RawURLEncoding.EncodeToString(thumbprint) != method.ID.Fragment {
 		return errors.New("key thumbprint does not match ID")
 	}
 	return nil
